@@ -326,7 +326,7 @@ def stepS (e : Ep) (op obs : List String) : Ep × Option String :=
     | some sid =>
       match lookup e.rcv sid with
       | none => (e, some "BAD dropreader: unknown stream")
-      | some h => cmp { e with rcv := update e.rcv sid (h.step true false .dropReader) } "ok"
+      | some h => cmp { e with rcv := update e.rcv sid (h.step true true .dropReader) } "ok"
     | none => (e, some "BAD dropreader")
   | ["reset", sidS, finalS] =>
     match sidS.toNat?, finalS.toNat? with
@@ -334,9 +334,8 @@ def stepS (e : Ep) (op obs : List String) : Ep × Option String :=
       match lookup e.rcv sid with
       | none => (e, some "BAD reset: unknown stream")
       | some h =>
-        -- `recv_reset` of the current tree does not compare the final size with the stream limit
-        -- (`rfix = false`); a tree that does (`rfix = true`) is accepted as well: which of the two the
-        -- code shows is the monitor's business (`reset_over_limit_accepted`).
+        -- `Recv::recv_reset` compares the final size with the stream limit (`rfix = true`,
+        -- fix-C11-reset-limit): exact comparison
         let shw (r : Rcvr × RstObs) : Ep × String :=
           match r with
           | (h', .sync n) =>
@@ -344,10 +343,8 @@ def stepS (e : Ep) (op obs : List String) : Ep × Option String :=
             (e', s!"sync={n} {s}")
           | (_, .finalSize) => (e, "err=FinalSize")
           | (_, .flowControl) => (e, "err=FlowControl")
-        let (e1, s1) := shw (h.reset false final)
-        if s1 == theirs then (e1, none) else
-        let (e2, s2) := shw (h.reset true final)
-        if s2 == theirs then (e2, none) else (e1, some s1)
+        let (e1, s1) := shw (h.reset true final)
+        if s1 == theirs then (e1, none) else (e1, some s1)
     | _, _ => (e, some "BAD reset")
   | [op, sidS] =>
     if op == "rstack" then cmp e "ok" else
